@@ -430,15 +430,31 @@ def pair_unpack_lint(repo, rep, rule, modules):
                     continue
                 src = str(norm(st.value)).replace("()", "")
                 mm = _re.search(r"(?:_|\b)(xy|wh|hw)$", src)
+                short = {"w": "W", "h": "H", "x": "W", "y": "H", "width": "W", "height": "H"}
                 if not mm:
-                    continue
-                want = ["H", "W"] if mm.group(1) == "hw" else ["W", "H"]
-                got = [name_axis(norm(e)) if isinstance(e, ast.Name) else None for e in st.targets[0].elts]
+                    # a call of a repo method whose every return is `return <a>, <b>` with axis-named a, b (get_kernel_stride -> w, h)
+                    v = st.value
+                    order = None
+                    if isinstance(v, ast.Call) and isinstance(v.func, ast.Attribute) and not v.args:
+                        cands = [f_ for m2 in repo.core_modules() for q2, f_ in m2.functions.items() if q2.split(".")[-1] == v.func.attr]
+                        if len(cands) == 1:
+                            rets = [r_ for r_ in ast.walk(cands[0]) if isinstance(r_, ast.Return) and isinstance(r_.value, ast.Tuple) and len(r_.value.elts) == 2]
+                            orders = {tuple(short.get(str(norm(e_)).lower(), name_axis(str(norm(e_)))) for e_ in r_.value.elts) for r_ in rets}
+                            if len(orders) == 1 and None not in next(iter(orders)) and rets:
+                                order = list(next(iter(orders)))
+                    if order is None:
+                        continue
+                    want = order
+                    label = f"{v.func.attr}() -> ({', '.join(order)})"
+                else:
+                    want = ["H", "W"] if mm.group(1) == "hw" else ["W", "H"]
+                    label = mm.group(1)
+                got = [(short.get(e.id.lower()) or name_axis(norm(e))) if isinstance(e, ast.Name) else None for e in st.targets[0].elts]
                 if all(g is None for g in got):
                     continue
                 n += 1
                 bad = [(str(norm(e)), g, w) for e, g, w in zip(st.targets[0].elts, got, want) if g is not None and g != w]
-                rep.check(not bad, rule, f"ethosu/vela/{mname}.py:{q}", f"`{str(norm(st))[:70]}` unpacks {mm.group(1)} in that order",
+                rep.check(not bad, rule, f"ethosu/vela/{mname}.py:{q}", f"`{str(norm(st))[:70]}` unpacks {label} in that order",
                           "; ".join(f"`{nm}` ({g}) takes the {w} component" for nm, g, w in bad))
     return n
 
@@ -543,4 +559,162 @@ def stale_extent_lint(repo, rep, rule, modules, report=True):
                                   f"`{V}` is re-assigned between the measurement and this use: the cached extent `{L}` describes a different array (element count vs byte count)")
                     elif not same:
                         print("STALE", mname, q, L, V, str(norm(tree))[:80])
+    return n
+
+
+def flag_consistency_lint(repo, rep, rule, modules, report=True):
+    """A local flag (every assignment to it is a boolean expression: comparison, and / or / not, True / False, an `in` test) that
+    decides two things - e.g. a bit programmed by one call and whether a register is written afterwards - must be fully decided
+    before its first use: every load of the flag sees the same set of reaching definitions. An override placed between two uses
+    makes the two decisions disagree. Returns the number of (flag, load) pairs examined."""
+    from ..cfg import cfg_of
+
+    def is_bool(e):
+        if isinstance(e, ast.Constant):
+            return isinstance(e.value, bool)
+        if isinstance(e, ast.Compare):
+            return True
+        if isinstance(e, ast.BoolOp):
+            return all(is_bool(v) for v in e.values)
+        if isinstance(e, ast.UnaryOp) and isinstance(e.op, ast.Not):
+            return True
+        return False
+
+    n = 0
+    for mname in modules:
+        m = repo.mod(mname)
+        for q, fn in m.functions.items():
+            defs = {}
+            for st in walk_no_nested(fn):
+                if isinstance(st, ast.Assign) and len(st.targets) == 1 and isinstance(st.targets[0], ast.Name):
+                    defs.setdefault(st.targets[0].id, []).append(st.value)
+                elif isinstance(st, (ast.AugAssign, ast.For, ast.With)):
+                    tgt = st.target if isinstance(st, (ast.AugAssign, ast.For)) else None
+                    for x in (ast.walk(tgt) if tgt is not None else []):
+                        if isinstance(x, ast.Name):
+                            defs.setdefault(x.id, []).append(None)
+            params = {a.arg for a in fn.args.args + fn.args.kwonlyargs}
+            flags = [k for k, v in defs.items() if len(v) >= 2 and all(x is not None and is_bool(x) for x in v) and k not in params]
+            if not flags:
+                continue
+            c = cfg_of(fn)
+            rd = c.reaching_defs()
+            for name in flags:
+                loads = {}
+                for x in walk_no_nested(fn):
+                    if isinstance(x, ast.Name) and x.id == name and isinstance(x.ctx, ast.Load):
+                        try:
+                            nid = c.node_of(x)
+                        except Exception:
+                            nid = None
+                        if nid is None:
+                            continue
+                        # a load inside the statement that re-defines the flag (x = x and y) refines it, it is not a use
+                        st = c.nodes[nid].stmt
+                        if isinstance(st, ast.Assign) and len(st.targets) == 1 and isinstance(st.targets[0], ast.Name) and st.targets[0].id == name and c.nodes[nid].kind == "stmt":
+                            continue
+                        loads[nid] = frozenset(rd[nid].get(name, ()))
+                if len(loads) < 2:
+                    continue
+                sets = set(loads.values())
+                # loops: a flag updated inside a loop body and read at the loop head legitimately sees different sets
+                in_loop = any(isinstance(p_, (ast.For, ast.While)) and any(isinstance(x, ast.Name) and x.id == name and isinstance(x.ctx, ast.Store) for x in ast.walk(p_)) for p_ in walk_no_nested(fn))
+                if in_loop:
+                    continue
+                n += len(loads)
+                if report:
+                    rep.check(len(sets) == 1, rule, f"ethosu/vela/{mname}.py:{q}", f"flag `{name}` is fully decided before its first use ({len(loads)} uses see the same definitions)",
+                              f"`{name}` is re-assigned between two of its uses: the decisions taken from it disagree (e.g. the scale mode programmed by one call and whether the scale register is written afterwards)")
+                elif len(sets) != 1:
+                    print("FLAG", mname, q, name, {k: sorted(v) for k, v in loads.items()})
+    return n
+
+
+def binding_stem_lint(repo, rep, rule, modules, report=True):
+    """A local whose name says which feature map it describes (ifm_bits, ofm_shape, ifm2_layout ...) is bound to a value
+    read from that feature map: `ifm_bits = npu_op.ofm.data_type.size_in_bits()` sizes the IFM partitions with the OFM's
+    element width. Only plain attribute chains / method calls on them that name exactly one side are compared."""
+    import re as _re
+
+    def side(name):
+        t = set(_re.split(r"[_.\[\]() ]+", name.lower()))
+        s = set()
+        if "ifm2" in t:
+            s.add("ifm2")
+        if "ifm" in t:
+            s.add("ifm")
+        if "ofm" in t:
+            s.add("ofm")
+        return s
+
+    n = 0
+    for mname in modules:
+        m = repo.mod(mname)
+        for q, fn in m.functions.items():
+            for st in walk_no_nested(fn):
+                if not (isinstance(st, ast.Assign) and len(st.targets) == 1 and isinstance(st.targets[0], ast.Name)):
+                    continue
+                ts = side(st.targets[0].id)
+                if len(ts) != 1:
+                    continue
+                v = st.value
+                while isinstance(v, ast.Call) and isinstance(v.func, ast.Attribute) and not v.args:
+                    v = v.func.value
+                if not isinstance(v, ast.Attribute):
+                    continue
+                vs = side(str(norm(v)))
+                if len(vs) != 1:
+                    continue
+                n += 1
+                if report:
+                    rep.check(ts == vs, rule, f"ethosu/vela/{mname}.py:{q}", f"`{st.targets[0].id}` is read from the {next(iter(ts))} side (`{str(norm(st.value))[:60]}`)",
+                              f"`{st.targets[0].id}` is bound to `{str(norm(st.value))[:70]}`: a quantity of the {next(iter(vs))} is used where the {next(iter(ts))}'s is meant")
+                elif ts != vs:
+                    print("STEM", mname, q, str(norm(st))[:90])
+    return n
+
+
+def swapped_argument_lint(repo, rep, rule, modules, report=True):
+    """A positional argument that is a plain name (or attribute leaf) spelled exactly like one of the callee's parameters sits at
+    that parameter's position: `encode_weights(acc, vol, dil, ofm_block_depth, ifm_bitdepth, ...)` for `def encode_weights(acc,
+    vol, dil, ifm_bitdepth, ofm_block_depth, ...)` exchanges two ints that every type check accepts. Callees are resolved by
+    unique simple name among the core modules."""
+    idx = {}
+    for m in repo.core_modules():
+        for q, fn in m.functions.items():
+            nm = q.split(".")[-1]
+            if nm == "__init__" and "." in q:
+                nm = q.split(".")[-2]
+            idx.setdefault(nm, []).append((m, q, fn))
+    n = 0
+    for mname in modules:
+        m = repo.mod(mname)
+        for q, fn in m.functions.items():
+            for c in ast.walk(fn):
+                if not isinstance(c, ast.Call):
+                    continue
+                cn = call_name(c)
+                if not cn or len(idx.get(cn.split(".")[-1], ())) != 1:
+                    continue
+                tm, tq, tfn = idx[cn.split(".")[-1]][0]
+                params = [a.arg for a in tfn.args.args]
+                if params and params[0] in ("self", "cls"):
+                    params = params[1:]
+                leaves = []
+                for i, a in enumerate(c.args):
+                    if isinstance(a, ast.Starred) or i >= len(params):
+                        break
+                    leaves.append(a.id if isinstance(a, ast.Name) else (a.attr if isinstance(a, ast.Attribute) else None))
+                for i, leaf in enumerate(leaves):
+                    if leaf is None or leaf not in params:
+                        continue
+                    n += 1
+                    j = params.index(leaf)
+                    # a true exchange: the argument named like parameter j sits at i and the one named like parameter i sits at j
+                    ok = not (j != i and j < len(leaves) and leaves[j] == params[i])
+                    if report:
+                        rep.check(ok, rule, f"ethosu/vela/{mname}.py:{q}", f"{str(norm(c))[:60]}: argument `{leaf}` is passed as parameter `{leaf}` of {tq}",
+                                  f"`{leaf}` is passed at the position of parameter `{params[i]}` although {tq} has a parameter named `{leaf}` at position {params.index(leaf) + 1}: two arguments are exchanged")
+                    elif not ok:
+                        print("SWAP", mname, q, str(norm(c))[:80], leaf, "->", params[i])
     return n
